@@ -1779,6 +1779,12 @@ class EntityTemplate(Block):
 
                     sig_root: Signal = sig._root
 
+                    if isinstance(sig_root, Port) and sig_root.is_input():
+                        raise AssertionError(
+                            f"writing to input port '{sig_root._name}' not allowed"
+                            f" (connected to output port '{name}' of entity instantiation: {block.name()})"
+                        )
+
                     if sig_root in written_in:
                         other = written_in[sig_root]
                         current_name = f"entity instantiation: {block.name()}"
